@@ -236,6 +236,11 @@ def cases(tier, seed):
         pres = rnd.sample(PRESENTATIONS, npres) if npres < len(PRESENTATIONS) else list(PRESENTATIONS)
         if not any(p[0] == 'hashseed' for p in pres):
             pres[-1] = ('hashseed', {})
+        if tier == 'quick':
+            # every quick group presents one atom order, one of (hydrogen names | rigid motion) and one hash seed
+            pres = [('permute', {'pstyle': 'reverse' if g % 2 else 'random'}),
+                    [('rename-h', {'hstyle': 'pdb-rotation'}), ('rigid', {}), ('rename-h', {'hstyle': 'arbitrary'}), ('rigid', {})][(g + seed) % 4],
+                    ('hashseed', {})]
         if '-go' in options:
             # the Go contact map places a fixed-frame point set on every atom: it is translation- but not rotation-invariant by
             # construction, and the statement's option list does not include it; only translations are presented there
